@@ -60,6 +60,7 @@ func runC19(c *Ctx, r *Report) {
 	r.Floor("C19-e/pool-init", 1, "kfMath's context wrapper")
 	r.Floor("C19-e/pool-return", 1, "kfMath's context wrapper")
 	r.Floor("C19-e/pool-return-once", 1, "kfMath's context wrapper")
+	c19UnaryAgreement(c, r, "C19-f/unary-agreement")
 }
 
 func scannerGuard2(c *Ctx, r *Report) {
